@@ -18,7 +18,8 @@ CLAIMS = {
          "DESIGN.md 3 (C01)"),
  "C02": ("The precommit ring buffer against its abstract sequence: put/readAhead/advanceReader/recedeWriter/freeSlots preserve the representation "
          "invariant, change the element count exactly as specified, write exactly the slot at the new write position and leave every other element "
-         "unchanged (quantified frame), and readAhead(n) returns element n; TxReader.Read accepts a transaction only if it chains to the previously "
+         "unchanged (quantified frame), and readAhead(n) returns element n; the commit-state functions (mayCommit, AllowCommitUpto, DiscardPrecommittedTxsSince, accessors) "
+         "keep committedTxID monotone, set committedAlh to the Alh of the last committed buffer entry and preserve the ordering lock invariant; TxReader.Read accepts a transaction only if it chains to the previously "
          "read one (ascending: PrevAlh, descending: Alh). Narrower than the property: the commit-state lock invariant, restart, compaction and file "
          "contents are not decided.",
          "DESIGN.md 3 (C02)"),
@@ -43,6 +44,14 @@ CLAIMS = {
          "the known finding; Cancel and the first part of Commit keep the one-shot discipline (already-closed error, same store tx). Not decided: statement "
          "execution, atomicity and isolation over programs and sessions, pgsql front end.",
          "DESIGN.md 3 (C13), 11"),
+ "C07": ("Commit-state functions of the replica path under value contracts: mayCommit moves the committed frontier exactly to the allowance, sets committedAlh "
+         "to the Alh of the last committed ring-buffer entry, leaves everything on error and preserves the ordering lock invariant (committed <= allowance <= "
+         "precommitted); AllowCommitUpto is monotone and capped by the precommitted id and fails without external allowance; DiscardPrecommittedTxsSince never "
+         "touches the committed pair, only lowers the precommitted id, never below the committed id, and voids the allowance of discarded transactions; "
+         "PrecommittedAlh / accessors; OngoingTx.validateAgainst accepts a header only with matching entry count and metadata; Tx.Header copies the header "
+         "fields. Not decided: performPrecommit and precommit (contracts written, not discharged within budget), ReplicateTx end to end, replicator goroutines, "
+         "delivery schedules, network.",
+         "DESIGN.md 3 (C07), 11"),
  "C08": ("Verifier half of the property: ahtree.EvalInclusion / EvalLastInclusion / EvalConsistency equal the recursive reference definitions of "
          "path evaluation and VerifyInclusion / VerifyLastInclusion / VerifyConsistency accept exactly when the shape conditions hold and the "
          "evaluated root equals the claimed one (both directions); htree.VerifyInclusion likewise. The tree generators (Append, BuildWith, "
